@@ -194,7 +194,13 @@ def simulate_with_map(shape, mode):
     envs = [0] * n
     net = RDNetwork(species=[Species("A", D=1.5), Species("B", D={"e0": 0.5})], reactions=[], environments=["e0", "e1"])
     st = [float((3 * k + 1) % 7) * 10.0 for k in range(2 * n)]
-    sysm = RDSystem(net, RDGridSpace(w=w, h=h, d=d, cell_env=envs, cell_vol=8.0), state=st)
+    # chemostat flags too (species A held in the last cell, species B in cell 1 when there is one): 2 species on n != 2 cells, so a
+    # transposed flag map is another map
+    chem = [0] * (2 * n)
+    if mode == 0 and n > 2:
+        chem[n - 1] = 1
+        chem[n + 1] = 1
+    sysm = RDSystem(net, RDGridSpace(w=w, h=h, d=d, cell_env=envs, cell_vol=8.0), state=st, chemostats=chem)
     ts = [0.0, 0.5, 1.0]
     plain = simulate(sysm, ts, engine=real_engine("euler"), time_step=0.125)
     cg = list(range(n)) if mode == 0 else [k // 2 for k in range(n)]
